@@ -124,16 +124,23 @@ def r08e(F):
 	fu = F.func(FC + 'do_best_block_updated')
 	ex = Expr(fu)
 	lim = None
-	for l, nm in fu.vars.items():
-		if nm == 'unforwarded_htlc_cltv_limit':
-			lim = ex.of_local(l)
+	# the limit handed to the holding-cell / unforwarded-HTLC expiry filter: a u32 local computed from the height parameter
+	cands = []
+	for l in fu.vars:
+		if l > fu.argc and (fu.locals[l].get('ty') or '') == 'u32':
+			e = ex.of_local(l)
+			t_, k_ = linear(e)
+			if len(t_) == 1 and list(t_.values())[0] == 1 and list(t_)[0] == (fu.local_name(2) or 'height') and k_ != 0:
+				cands.append(e)
+	if len(cands) == 1:
+		lim = cands[0]
 	if lim is None:
-		out.append(Result('08.e', False, 'anchor:unforwarded_htlc_cltv_limit', 'do_best_block_updated has no unforwarded_htlc_cltv_limit'))
+		out.append(Result('08.e', False, 'anchor:unforwarded-limit', 'do_best_block_updated: expected one u32 local of the form height + const (the unforwarded-HTLC expiry limit), found %d' % len(cands)))
 	else:
 		terms, k = linear(lim)
-		ok = k == c['LGP'] and terms == {'height': 1}
+		ok = k == c['LGP'] and len(terms) == 1 and list(terms.values()) == [1]
 		out.append(Result('08.e', ok, ('ok:' if ok else 'shape:') + 'unforwarded-limit', 'unforwarded_htlc_cltv_limit = %s (expected height + LATENCY_GRACE_PERIOD_BLOCKS)' % expr_str(lim), 1, where=F.where(fu.name)))
-	out += P7_guard(F, '08.e', FC + 'do_best_block_updated', 'holding-cell HTLC expiry', r'cltv_expiry$', r'unforwarded_htlc_cltv_limit$', 'Le', 0)
+	out += P7_guard(F, '08.e', FC + 'do_best_block_updated', 'holding-cell HTLC expiry', r'cltv_expiry$', r'^[a-z_][a-z0-9_]*$', 'Le', 0)
 	# the deadline scans cover every commitment an HTLC can live in: current AND previous counterparty commitment
 	for fn2 in (fn, MONP + 'ChannelMonitorImpl::block_confirmed'):
 		fu2 = F.func(fn2)
